@@ -30,7 +30,7 @@ def _sysroot():
 def tree_hash(repo, extra=""):
     h = hashlib.sha256()
     files = []
-    for pat in ("src/**/*.rs", "benches/**/*.rs", "tests/**/*.rs", "Cargo.toml", "Cargo.lock", "build.rs", ".cargo/config.toml"):
+    for pat in ("src/**/*.rs", "benches/**/*.rs", "tests/**/*.rs", "Cargo.toml", "Cargo.lock", "build.rs", ".cargo/config.toml", "config.toml"):
         files.extend(glob.glob(os.path.join(repo, pat), recursive=True))
     for f in sorted(set(files)):
         h.update(os.path.relpath(f, repo).encode())
